@@ -15,6 +15,8 @@ import DustVerif.Driver.Cond
 import DustVerif.Driver.Timer
 import DustVerif.Driver.Rtps
 import DustVerif.Driver.Wrt
+import DustVerif.Driver.CFilter
+import DustVerif.Driver.Receiver
 open DustVerif.Driver
 
 partial def loopStateless (h : IO.FS.Stream) (out : IO.FS.Stream) (f : String → String) : IO Unit := do
@@ -51,5 +53,7 @@ def main (args : List String) : IO UInt32 := do
   | ["timer"] => loopStateful stdin stdout TimerEngine.step TimerEngine.init; return 0
   | ["rtps"] => loopStateful stdin stdout RtpsEngine.step RtpsEngine.defaultSt; return 0
   | ["wrt"] => loopStateful stdin stdout WrtEngine.step WrtEngine.initSt; return 0
+  | ["cfilter"] => loopStateful stdin stdout CFilterEngine.step CFilterEngine.init; return 0
+  | ["fuzzdg"] => loopStateful stdin stdout ReceiverEngine.step ReceiverEngine.init; return 0
   | ["hist"] => loopStateful stdin stdout HistEngine.step HistEngine.defaultSt; return 0
   | _ => IO.eprintln "usage: dustmodel <engine>"; return 2
